@@ -10,6 +10,8 @@ pub use self::{
     lazy::{LazyBuilder, LazyUpdate},
     world_ext::WorldExt,
 };
+#[cfg(specs_verif)]
+pub use self::entity::{verif_sched, VerifAllocDump};
 
 use shred::{FetchMut, SystemData};
 
